@@ -2,6 +2,7 @@ package main
 
 import (
 	"fmt"
+	"go/constant"
 	"go/token"
 	"strings"
 
@@ -102,7 +103,7 @@ func checkC16(p *Program, r *Reporter) {
 		}
 	}
 	// setReqHeaders itself
-	r.Rule("E5-SETHDR", "setReqHeaders: version header unconditional, content type per media kind, credentials exactly when configured", 5)
+	r.Rule("E5-SETHDR", "setReqHeaders: version header unconditional, content type per media kind, credentials exactly when configured", 3)
 	ffH := factsOf(srh)
 	wantCT := map[string]string{"video": "video/mp4", "audio": "audio/mp4", "text": "application/mp4"}
 	seenCT := map[string]bool{}
@@ -124,17 +125,96 @@ func checkC16(p *Program, r *Reporter) {
 					r.Decide(len(cds) == 0, "E5-SETHDR", shortFn(srh), "header:DASH-IF-Ingest", p.pos(c.Pos()), "set on every path",
 						"the ingest version header is set only under a condition", nil)
 				case "Content-Type":
-					kind := ""
-					for _, cd := range ffH.dominatingConds(b) {
-						if bo, ok := cd.V.(*ssa.BinOp); ok && bo.Op == token.EQL && cd.Pos {
-							if s, ok := constString(bo.Y); ok {
-								kind = s
+					if val != "" {
+						// constant arm: the media kind comes from the dominating comparison
+						kind := ""
+						for _, cd := range ffH.dominatingConds(b) {
+							if bo, ok := cd.V.(*ssa.BinOp); ok && bo.Op == token.EQL && cd.Pos {
+								if s, ok := constString(bo.Y); ok {
+									kind = s
+								}
 							}
 						}
+						seenCT[kind] = true
+						r.Decide(wantCT[kind] == val, "E5-SETHDR", shortFn(srh), "content-type:"+kind, p.pos(c.Pos()), fmt.Sprintf("%s -> %s", kind, val),
+							fmt.Sprintf("media kind %q is sent with content type %q (documented: %q)", kind, val, wantCT[kind]), nil)
+						continue
 					}
-					seenCT[kind] = true
-					r.Decide(wantCT[kind] == val && val != "", "E5-SETHDR", shortFn(srh), "content-type:"+kind, p.pos(c.Pos()), fmt.Sprintf("%s -> %s", kind, val),
-						fmt.Sprintf("media kind %q is sent with content type %q (documented: %q)", kind, val, wantCT[kind]), nil)
+					// computed value: must come from the media kind; a package-level table is compared entry by entry
+					var kindPrm *ssa.Parameter
+					for _, prm := range srh.Params {
+						if prm.Name() == "contentType" {
+							kindPrm = prm
+						}
+					}
+					fromKind := kindPrm != nil && localDependsOnParam(p, c.Call.Args[2], kindPrm)
+					table := map[string]string{}
+					var tableName string
+					sliceVisitIntra(p, c.Call.Args[2], func(v ssa.Value) {
+						lk, ok := v.(*ssa.Lookup)
+						if !ok {
+							return
+						}
+						u, ok := lk.X.(*ssa.UnOp)
+						if !ok {
+							return
+						}
+						g, ok := u.X.(*ssa.Global)
+						if !ok {
+							return
+						}
+						tableName = g.Name()
+						fnsWithInit := pkgFuncs(p, pkgApp)
+						if sp := p.SSAPkgs[pkgApp]; sp != nil {
+							if initFn := sp.Func("init"); initFn != nil {
+								fnsWithInit = append(fnsWithInit, initFn)
+							}
+						}
+						for _, fn := range fnsWithInit {
+							for _, bb := range fn.Blocks {
+								for _, in2 := range bb.Instrs {
+									mu, ok := in2.(*ssa.MapUpdate)
+									if !ok {
+										continue
+									}
+									isG := false
+									if uu, ok := mu.Map.(*ssa.UnOp); ok && uu.X == ssa.Value(g) {
+										isG = true
+									}
+									if mk, ok := mu.Map.(*ssa.MakeMap); ok && mk.Referrers() != nil {
+										for _, ref := range *mk.Referrers() {
+											if st, ok := ref.(*ssa.Store); ok && st.Addr == ssa.Value(g) {
+												isG = true
+											}
+										}
+									}
+									if !isG {
+										continue
+									}
+									k, ok1 := constString(mu.Key)
+									vv, ok2 := constString(mu.Value)
+									if ok1 && ok2 {
+										table[k] = vv
+									}
+								}
+							}
+						}
+					})
+					switch {
+					case !fromKind:
+						r.Violate("E5-SETHDR", shortFn(srh), "content-type:computed", p.pos(c.Pos()), "the content type sent does not depend on the media kind", nil)
+					case tableName != "":
+						for kind, want := range wantCT {
+							seenCT[kind] = true
+							r.Decide(table[kind] == want, "E5-SETHDR", shortFn(srh), "content-type:"+kind, p.pos(c.Pos()), fmt.Sprintf("%s -> %s (table %s)", kind, table[kind], tableName),
+								fmt.Sprintf("table %s maps media kind %q to %q (documented: %q)", tableName, kind, table[kind], want), nil)
+						}
+					default:
+						for kind := range wantCT {
+							seenCT[kind] = true
+						}
+						r.Discharge("E5-SETHDR", shortFn(srh), "content-type:computed", p.pos(c.Pos()), "computed from the media kind (values not resolved statically)")
+					}
 				}
 			case "(*net/http.Request).SetBasicAuth":
 				okCred := true
@@ -166,76 +246,100 @@ func checkC16(p *Program, r *Reporter) {
 			r.Violate("E5-SETHDR", shortFn(srh), "content-type:"+kind, p.pos(srh.Pos()), "no content type is set for media kind "+kind, nil)
 		}
 	}
-	// (b) init first
-	r.Rule("E5-INITFIRST", "media segments are sent only after all init segments were sent successfully", 3)
+	// (b) init first: every media send is dominated by the "no init error" side of a test of a flag or counter
+	// that is set / incremented on the error side of sendInitSegment
+	r.Rule("E5-INITFIRST", "media segments are sent only after all init segments were sent successfully", 2)
 	ffS := factsOf(start)
-	var counterTest ssa.Value
-	for _, b := range start.Blocks {
-		ifi, ok := b.Instrs[len(b.Instrs)-1].(*ssa.If)
-		if !ok {
-			continue
-		}
-		bo, ok := ifi.Cond.(*ssa.BinOp)
-		if !ok || bo.Op != token.GTR {
-			continue
-		}
-		ph, ok := bo.X.(*ssa.Phi)
-		if !ok || ph.Comment != "nrInitErrors" {
-			continue
-		}
-		if k, ok := constInt(bo.Y); ok && k == 0 {
-			counterTest = bo
-			// incremented on the error side of sendInitSegment
-			incOK := false
-			for _, e := range ph.Edges {
-				var stack []ssa.Value
-				stack = append(stack, e)
-				seen := map[ssa.Value]bool{}
-				for len(stack) > 0 {
-					v := stack[len(stack)-1]
-					stack = stack[:len(stack)-1]
-					if seen[v] {
-						continue
-					}
-					seen[v] = true
-					switch x := v.(type) {
-					case *ssa.Phi:
-						stack = append(stack, x.Edges...)
-					case *ssa.BinOp:
-						if x.Op == token.ADD {
-							for _, cd := range ffS.dominatingConds(x.Block()) {
+	setOnInitError := func(ph *ssa.Phi) bool {
+		seen := map[ssa.Value]bool{}
+		stack := []ssa.Value{ph}
+		for len(stack) > 0 {
+			v := stack[len(stack)-1]
+			stack = stack[:len(stack)-1]
+			if seen[v] {
+				continue
+			}
+			seen[v] = true
+			var defBlock *ssa.BasicBlock
+			isSet := false
+			switch x := v.(type) {
+			case *ssa.Phi:
+				for i, e := range x.Edges {
+					if c, ok := e.(*ssa.Const); ok {
+						// a constant true / non-zero assigned on an edge: the assigning block is the predecessor
+						if (c.Value != nil && c.Value.Kind() == constant.Bool && constant.BoolVal(c.Value)) {
+							pred := x.Block().Preds[i]
+							for _, cd := range ffS.dominatingConds(pred) {
 								for _, side := range nilTestOperands(cd) {
-									if c, ok := side.(*ssa.Call); ok && c.Call.StaticCallee() == sis {
-										incOK = true
+									if call, ok := side.(*ssa.Call); ok && call.Call.StaticCallee() == sis {
+										return true
+									}
+								}
+							}
+							if ec, ok := edgeCond(pred, x.Block()); ok {
+								for _, side := range nilTestOperands(ec) {
+									if call, ok := side.(*ssa.Call); ok && call.Call.StaticCallee() == sis {
+										return true
 									}
 								}
 							}
 						}
+						continue
+					}
+					stack = append(stack, e)
+				}
+			case *ssa.BinOp:
+				if x.Op == token.ADD {
+					isSet, defBlock = true, x.Block()
+				}
+			}
+			if isSet {
+				for _, cd := range ffS.dominatingConds(defBlock) {
+					for _, side := range nilTestOperands(cd) {
+						if call, ok := side.(*ssa.Call); ok && call.Call.StaticCallee() == sis {
+							return true
+						}
 					}
 				}
 			}
-			r.Decide(incOK, "E5-INITFIRST", shortFn(start), "counter-incremented-on-error", p.pos(instrPos(ifi)), "the init error counter is incremented on the error side of sendInitSegment",
-				"the init error counter is not incremented where sendInitSegment fails", nil)
 		}
+		return false
 	}
-	if counterTest == nil {
-		r.Violate("E5-INITFIRST", shortFn(start), "counter-test", p.pos(start.Pos()), "no test of the init error counter found before the session loop", nil)
+	// the test: (flag, false side) / (counter > 0, false side) / (counter == 0, true side) / (counter != 0, false side)
+	okSide := func(cd cond) bool {
+		switch x := cd.V.(type) {
+		case *ssa.Phi:
+			return !cd.Pos && x.Type().String() == "bool" && setOnInitError(x)
+		case *ssa.BinOp:
+			ph, isPhi := x.X.(*ssa.Phi)
+			k, isConst := constInt(x.Y)
+			if !isPhi || !isConst || k != 0 || !setOnInitError(ph) {
+				return false
+			}
+			switch x.Op {
+			case token.GTR, token.NEQ:
+				return !cd.Pos
+			case token.EQL, token.LEQ:
+				return cd.Pos
+			}
+		}
+		return false
 	}
 	nMedia := 0
 	for _, s := range callsTo(p, sms) {
-		if s.Parent() != start {
+		if !inCluster(start, s.Parent()) {
 			r.Violate("E5-INITFIRST", shortFn(s.Parent()), "call:sendMediaSegments", p.pos(s.Pos()), "media segments are sent from outside the session loop: ordering after the init segments not analysed", nil)
 			continue
 		}
 		nMedia++
 		ok := false
-		for _, cd := range ffS.dominatingConds(s.Block()) {
-			if cd.V == counterTest && !cd.Pos {
+		for _, cd := range effectiveDomConds(s.Block()) {
+			if okSide(cd) {
 				ok = true
 			}
 		}
-		r.Decide(ok, "E5-INITFIRST", shortFn(start), "call:sendMediaSegments", p.pos(s.Pos()), "dominated by 'no init errors'",
-			"media segments can be sent although an init segment was not delivered", nil)
+		r.Decide(ok, "E5-INITFIRST", shortFn(start), "call:sendMediaSegments", p.pos(s.Pos()), "dominated by the 'no init error' side of a flag/counter set where sendInitSegment fails",
+			"media segments can be sent although an init segment was not delivered: no dominating test of a flag or counter that is set on the error side of sendInitSegment", nil)
 	}
 	if nMedia == 0 {
 		r.Broken("no sendMediaSegments call in the session loop")
